@@ -29,7 +29,12 @@ import (
 
 var vfC32Faults = []string{"ok", "transport-error", "status-500", "short-body", "whole-body-200", "slow", "long-body"}
 
+// vfC32FaultsUndeclared adds the same partial / whole-body / over-long answers sent without a
+// declared length (chunked transfer: Content-Length unknown), used by the non-preemptive space.
+var vfC32FaultsUndeclared = append(append([]string{}, vfC32Faults...), "short-body-undeclared", "whole-body-200-undeclared", "long-body-undeclared")
+
 type vfC32RT struct {
+	alphabet []string
 	resource []byte
 	faults   map[string]bool
 	attempts map[int]int
@@ -76,7 +81,11 @@ func (rt *vfC32RT) RoundTrip(req *http.Request) (*http.Response, error) {
 	vsched.Point("rt-start")
 	idx := lo
 	rt.attempts[idx]++
-	f := vfC32Faults[vsched.Deviate(len(vfC32Faults), fmt.Sprintf("answer@%d#%d", lo, rt.attempts[idx]))]
+	alphabet := rt.alphabet
+	if alphabet == nil {
+		alphabet = vfC32Faults
+	}
+	f := alphabet[vsched.Deviate(len(alphabet), fmt.Sprintf("answer@%d#%d", lo, rt.attempts[idx]))]
 	if f != "ok" {
 		rt.faults[f] = true
 		rt.nFaults++
@@ -94,7 +103,8 @@ func (rt *vfC32RT) RoundTrip(req *http.Request) (*http.Response, error) {
 	}
 	var resp *http.Response
 	var err error
-	switch f {
+	undeclared := strings.HasSuffix(f, "-undeclared")
+	switch strings.TrimSuffix(f, "-undeclared") {
 	case "ok":
 		resp = mk(206, rt.resource[lo:hi+1], nil)
 	case "transport-error":
@@ -117,6 +127,10 @@ func (rt *vfC32RT) RoundTrip(req *http.Request) (*http.Response, error) {
 	case "slow":
 		vsched.Advance(10 * time.Second)
 		resp = mk(206, rt.resource[lo:hi+1], nil)
+	}
+	if undeclared && resp != nil {
+		resp.ContentLength = -1
+		resp.TransferEncoding = []string{"chunked"}
 	}
 	vsched.Point("rt-reply")
 	if cerr := req.Context().Err(); cerr != nil {
@@ -141,6 +155,8 @@ func TestVerif_C32(t *testing.T) {
 	// preemptions: enough to let both halves of a hedged pair report while
 	// another chunk fails for good, at a fraction of the cost.
 	vfC32Explore(t, "hedged-four-chunks-no-preemption", []vfC32Shape{{4, 1, 8, 2, 1}, {4, 1, 2, 2, 1}}, 2, 0)
+	// The answer alphabet widened by bodies of undeclared length, again without preemptions.
+	vfC32ExploreWith(t, "undeclared-length-answers-no-preemption", []vfC32Shape{{3, 1, 1, 0, 0}, {4, 2, 2, 0, 0}, {3, 1, 2, 2, 1}}, 2, 0, vfC32FaultsUndeclared)
 }
 
 type vfC32Shape struct {
@@ -150,11 +166,15 @@ type vfC32Shape struct {
 }
 
 func vfC32Explore(t *testing.T, name string, shapes []vfC32Shape, devBound, preBound int) {
+	vfC32ExploreWith(t, name, shapes, devBound, preBound, nil)
+}
+
+func vfC32ExploreWith(t *testing.T, name string, shapes []vfC32Shape, devBound, preBound int, alphabet []string) {
 	venum.Explore(t, venum.Cfg{Name: name, DevBound: devBound, PreemptBound: preBound, Shardable: true, CheckDeterminism: true},
 		func(x *venum.X) {
 			sh := shapes[x.Choose(len(shapes), "shape")]
 			resource := []byte("abcdefgh")[:sh.size]
-			rt := &vfC32RT{resource: resource, faults: map[string]bool{}, attempts: map[int]int{}, origBad: map[int]bool{}}
+			rt := &vfC32RT{alphabet: alphabet, resource: resource, faults: map[string]bool{}, attempts: map[int]int{}, origBad: map[int]bool{}}
 			client := &http.Client{Transport: rt}
 			cfg := &FetchConfig{ParallelThresholdBytes: 1, ChunkSizeBytes: int64(sh.chunk), MaxParallelRequests: sh.par,
 				TimeoutSeconds: 60, MaxFetchBytes: 1 << 20, SpeculativeRetryMultiplier: sh.hedgeMult, MaxSpeculativeHedges: sh.maxHedges}
